@@ -36,11 +36,11 @@ ASSUMPTIONS = ["the hostile peer's script is finite and ends with EOF (a peer th
                "time budget per parser call 5 s (a 64 KiB PASV payload needs ~2 s because of a quadratic regular expression; "
                "bounded by the stream limit, so not a hang)"]
 REQUIRED_MONITORS = ["hostile_lines", "bystander_vs_solo", "parser_calls", "client_calls", "listing_after_hostile",
-                     "listing_lines_accounted", "tree_listings"]
+                     "listing_lines_accounted", "tree_listings", "limits_after_hostile"]
 ANCHOR_FUNCTIONS = ['server.py:Server.parse_command', 'client.py:BaseClient.parse_list_line', 'client.py:Client.list.<locals>.AsyncLister.__anext__']
 EXHAUSTIVE = {"quick": False, "thorough": False}
 
-VALID_CMDS = [b"USER anonymous", b"PASS x", b"PWD", b"CWD /dir", b"CDUP", b"MKD /new", b"RMD /new", b"DELE /f.bin", b"RNFR /f.bin",
+VALID_CMDS = [b"USER anonymous", b"PASS x", b"USER alice", b"PASS secret", b"PASS wrong", b"USER bob", b"PASS", b"USER alice", b"PASS \xff", b"PWD", b"CWD /dir", b"CDUP", b"MKD /new", b"RMD /new", b"DELE /f.bin", b"RNFR /f.bin",
               b"RNTO /g.bin", b"MLST /f.bin", b"TYPE I", b"PASV", b"EPSV", b"REST 5", b"RETR /f.bin", b"STOR /up", b"APPE /up",
               b"LIST /", b"MLSD /", b"ABOR", b"SYST", b"PBSZ 0", b"PROT P", b"NOOP", b"QUIT"]
 UNIX = [b"-rw-rw-r--  1 poh  poh   6595 Feb 27 04:14 history.rst", b"drwxr-xr-x  2 none none 0 Jan  3  2016 changes dir",
@@ -50,8 +50,11 @@ WIN = [b"10/19/2018  03:57 PM    <DIR>          Foo", b"07/17/2019  03:53 PM    
 MLSX = [b"Type=file;Size=25730;Modify=20220101000000; foo.txt", b"type=dir;modify=20010101120000;create=19990101000000; some dir",
         b"Size=0;Type=file; ", b"Type=cdir;Modify=20230101000000; ."]
 NOT_ENTRIES = [b"total 12", b"total 2 -rw------- 1 root root 4096 Jan 01  2020 shadow", b"total 0x10", b"total 1337 bytes of garbage",
-               b"-rw-r--r--", b"ls: cannot access 'x': No such file or directory", b"226 Transfer complete", b"Type=file", b"# comment",
-               b"drwxr-xr-x", b"<html>", b"0 files", b"Volume in drive C has no label."]
+               b"-rw-r--r--", b"ls: cannot access 'x': No such file or directory", b"226 Transfer complete", b"# comment",
+               b"drwxr-xr-x", b"<html>", b"0 files", b"Volume in drive C has no label.",
+               b"lrwxrwxrwx   1 ftp ftp 7 Jan 01  2020 current", b"lrwxrwxrwx 1 a a 3 Feb 29 12:00 x->y",
+               b"-rw-r--r-- 1 a a twelve Jan 01  2020 f", b"07/17/2019  03:53 PM", b"13/45/2019  03:53 PM  12 when", b"crw-rw---- 1 root tty 4, 64 Jan 01  2020 ttyS0",
+               b"=; x", b";;; y", b"type=file;size=1;modify=20200101000000;noname"]
 REPLIES = ["227 listen socket created (127,0,0,1,156,64)", "229 listen socket created (|||40000|)", '257 "/some/dir" is current',
            "227 Entering Passive Mode (10,0,0,1,4,1).", "229 Extended Passive Mode OK (|||1|)"]
 MUT_BYTES = [b"\0", b"\xff", b"\xff\xf4\xff\xf2", b"\x80", b"\xc3", b"\xe2\x82", b"\r", b"\n", b"\r\n", b" ", b"  ", b"\t", b"-", b"=", b";", b":", b"0",
@@ -92,7 +95,11 @@ async def server_side(net, hyg, plan):
     rng = random.Random(plan["seed"])
     viol = []
     mon = {"hostile_lines": 0, "bystander_vs_solo": 0}
-    w = W.World(net, tree=corpus_tree(["", "/by"]), users=corpus_users)
+    def users(base):
+        # alice may be connected twice, bob once: what a hostile session leaves of these limits shows afterwards
+        return [aioftp.User(base_path=base), aioftp.User("alice", "secret", base_path=base, maximum_connections=2),
+                aioftp.User("bob", "pw", base_path=base, maximum_connections=1)]
+    w = W.World(net, tree=corpus_tree(["", "/by"]), users=users, maximum_connections=6)
     await w.start()
     try:
         by = Session(net, 2121, name="bystander")
@@ -104,8 +111,17 @@ async def server_side(net, hyg, plan):
             p = RawPeer(net, 2121, name="hostile")
             try:
                 await p.connect()
-                if rng.random() < 0.7:
+                r0 = rng.random()
+                if r0 < 0.5:
                     await p.cmd("USER anonymous")
+                elif r0 < 0.8:
+                    # a limited account, then a garbage / wrong / missing password
+                    await p.cmd("USER " + rng.choice(["alice", "bob"]))
+                    p.writer.write(b"PASS " + rng.choice([b"wrong", b"\xff\xfe", b"", b"secret ", b"x" * 300, mutate(rng, b"secret")]) + b"\r\n")
+                    try:
+                        await asyncio.wait_for(p.reader.read(65536), 0.05)
+                    except asyncio.TimeoutError:
+                        pass
                 for i in range(plan["lines"]):
                     r = rng.random()
                     if r < 0.03:
@@ -149,6 +165,21 @@ async def server_side(net, hyg, plan):
         await s.run([["connect"], ["login"], ["cmd", "PWD"], ["quit"]])
         if s.flat_codes()[:4] != ["220", "230", "257", "221"]:
             viol.append({"key": "server-unusable-after-hostile-input", "msg": f"new session got {s.flat_codes()} after hostile lines {sent[:5]}"})
+        # ... the limits of the accounts it touched are all there again
+        held = []
+        got = []
+        for who, pw in (("alice", "secret"), ("alice", "secret"), ("bob", "pw")):
+            sx = Session(net, 2121, name="after-" + who)
+            await sx.run([["connect"], ["login", who, pw]])
+            got.append(sx.flat_codes())
+            held.append(sx)
+        mon["limits_after_hostile"] = 1
+        if got != [["220", "331", "230"]] * 3:
+            viol.append({"key": "connection-slot-lost-after-hostile-input",
+                         "msg": f"after the hostile session ended, two logins of alice (limit 2) and one of bob (limit 1) got {got}; "
+                                f"hostile lines {sent[:8]}"})
+        for sx in held:
+            await sx.run([["quit"]])
         # ... and whatever the hostile session left in the tree does not break a later session that lists it
         s2 = Session(net, 2121, name="after-listing")
         await s2.run([["connect"], ["login"], ["epsv"], ["xfer", "MLSD", "/"], ["pasv"], ["xfer", "LIST", "/"], ["cmd", "PWD"], ["quit"]])
@@ -479,7 +510,7 @@ async def client_side(net, hyg, plan):
                                 if got_paths != sorted(want):
                                     viol.append({"key": f"wrong-listing-of-conformant-server:{op}",
                                                  "msg": f"plan {plan}: entries {got_paths}, the tree holds {sorted(want)}"})
-                            if plan["target"] != "listing" and op != "list_recursive" and len(hs.listing_sent) - before == 1:
+                            if plan["target"] not in ("listing", "not_entry") and op != "list_recursive" and len(hs.listing_sent) - before == 1:
                                 # unmutated seed lines: the number of entries is known exactly
                                 def seed_name(ln):
                                     if ln in MLSX:
@@ -514,6 +545,19 @@ async def client_side(net, hyg, plan):
                             viol.append({"key": f"line-dropped-silently:{op}",
                                          "msg": f"plan {plan}: {good} parseable non-dot lines sent {hs.listing_sent[before][:4]}, list() "
                                                 f"returned {len(r)} entries"})
+                    if (plan["target"] == "not_entry" and st == "ok" and op != "list_recursive" and len(hs.listing_sent) - before == 1
+                            and isinstance(r, list)):
+                        # independent of the client's parsers: the listing consists of known seed lines plus one line that is
+                        # no '.'/'..' entry; a normal return therefore has an entry for every one of them
+                        lines_ = hs.listing_sent[before]
+                        seeds = MLSX + UNIX + WIN
+                        n_dot = sum(1 for ln in lines_ if ln.endswith(b" .") or ln.endswith(b" ..") or ln == b"Size=0;Type=file; ")
+                        mon["not_entry_accounted"] = mon.get("not_entry_accounted", 0) + 1
+                        if len(r) < len(lines_) - n_dot:
+                            extra = [ln for ln in lines_ if ln in NOT_ENTRIES]
+                            viol.append({"key": f"line-dropped-silently:{op}:not-an-entry",
+                                         "msg": f"plan {plan}: {len(lines_)} lines sent ({n_dot} of them dot entries), among them {extra}; "
+                                                f"list() returned {len(r)} entries and reported nothing"})
                     if plan["target"] == "tree":
                         ndirs = 4 if op == "list_recursive" else 1
                         nlist = sum(1 for v in hs.cmds[cmds_before:] if v in ("LIST", "MLSD"))
@@ -562,7 +606,7 @@ def run_case(case):
     for plan in case["plans"]:
         async def main(net, hyg, plan=plan):
             return await client_side(net, hyg, plan)
-        res, info = W.run(main, seed=plan["seed"], net_kwargs=dict(latency=0.0005))
+        res, info = W.run(main, seed=plan["seed"], net_kwargs=dict(latency=0.0005), block_detector=False)
         if res is None:
             r = W.failed(info, f"plan={plan}")
             if r.get("inconclusive"):
